@@ -308,3 +308,34 @@ fn c10_to_std_string() {
         kani::cover!(true, "VERIF:reach:invalid UTF-8 rejected");
     }
 }
+
+// PROBE (not registered: no HARNESS line): decode of a reference-encoded transfer
+#[kani::proof]
+#[kani::unwind(420)]
+fn probe_decode_transfer() {
+    let env = Env::default();
+    let token_id = any::b32(1);
+    let amount: i128 = kani::any();
+    kani::assume(amount >= 0);
+    let mut r = Ref::new();
+    r.word(0);
+    r.word32(&token_id.0);
+    r.word(192);
+    r.word(256);
+    r.word(amount as u128);
+    r.word(320);
+    let one = any::bytes_exact(1);
+    r.tail(&one.0, 1);
+    r.tail(&one.0, 1);
+    r.tail(&one.0, 0);
+    let mut b = soroban_sdk::Buf::new();
+    let mut i = 0;
+    while i < 352 {
+        b.d[i] = r.d[i];
+        i += 1;
+    }
+    b.len = 352;
+    let back = Message::abi_decode(&env, &Bytes(b));
+    kani::assert(back.is_ok(), "VERIF:C10:probe decode ok");
+    core::mem::forget(back);
+}
